@@ -17,6 +17,9 @@ VERIF = os.path.dirname(os.path.dirname(os.path.abspath(__file__)))
 REPO = os.environ.get("VERIF_REPO", "/repo")
 BIN = os.path.join(VERIF, "bin", "gosym")
 SOLVER = os.environ.get("VERIF_SOLVER", "z3-new")
+# where evidence/ and replays/ are written: /verif itself unless a scratch run (seed matrix) redirects it
+OUT = os.environ.get("VERIF_OUT", VERIF)
+WORKERS = int(os.environ.get("VERIF_WORKERS", "16"))
 
 GOENV = dict(os.environ, GOFLAGS="-mod=mod", GOPROXY="off", GOSUMDB="off", GOTOOLCHAIN="local")
 
@@ -82,9 +85,10 @@ def make_engine_overlay(pkgkey):
     return d
 
 
-def run_engine(pkgkey, jobs, workers=16, qtimeout_ms=20000, wall_timeout_s=3600, tests=False):
+def run_engine(pkgkey, jobs, workers=None, qtimeout_ms=20000, wall_timeout_s=3600, tests=False):
     """Runs all jobs for one package; returns the list of JobResult dicts."""
     ensure_engine()
+    workers = workers or WORKERS
     pkgdir, _ = PKGS[pkgkey]
     ov = make_engine_overlay(pkgkey)
     wd = workdir()
@@ -180,7 +184,7 @@ def load_known():
 
 
 def save_replay(prop, n, case, extra):
-    d = os.path.join(VERIF, "replays")
+    d = os.path.join(OUT, "replays")
     os.makedirs(d, exist_ok=True)
     p = os.path.join(d, "%s-%d.json" % (prop, n))
     json.dump(dict(case, **extra), open(p, "w"), indent=1, sort_keys=True)
